@@ -92,6 +92,22 @@ class Session:
                                              cache_dir=None,
                                              problem=problem)
 
+    def fresh_ref_sl(self):
+        SLm = repo.mod('src.single_layer')
+        return SLm.SingleLayerOperator(self.case.mesh,
+                                       quad_order=self.cfg['quad_order'],
+                                       pw_exact=self.cfg['pw_exact'],
+                                       cache_dir=None)
+
+    def fresh_ref_m0(self):
+        IPm = repo.mod('src.initial_potential')
+        IM = repo.mod('src.initial_mesh')
+        return IPm.InitialOperator(
+            bdr_mesh=self.case.mesh, u0=u0_of(self.u0_kind),
+            initial_mesh=getattr(IM, self.curve + 'BoundaryRefined'),
+            quad_int=self.cfg['quad_int'], cache_dir=None,
+            problem='{}_{}'.format(self.curve, self.u0_kind))
+
     def replay(self, ops):
         class _C:
             def inc(self, *a):
@@ -182,21 +198,38 @@ class World:
         shutil.rmtree(self.root, ignore_errors=True)
 
     # ---------------------------------------------------------- reference --
-    def ref_matrix(self, s, test, trial):
+    def ref_matrix(self, s, test, trial, seed=0):
+        """R[i, j] = bilform(trial_j, test_i), every pair 'on its own': a
+        fresh pristine operator per call, the missing pairs evaluated in a
+        seeded random order (so that an evaluation that depends on what the
+        operator computed before cannot agree with the path under test by
+        sharing its history)."""
         key0 = (s.curve, s.cfg['pw_exact'], s.cfg['quad_order'])
         R = np.zeros((len(test), len(trial)))
+        todo = []
         for i, et in enumerate(test):
             gi = geom(et)
             for j, er in enumerate(trial):
                 k = (key0, gi, geom(er))
                 v = self.memo.get(k)
                 if v is None:
-                    v = float(s.refSL.bilform(er, et))
+                    todo.append((i, j, k))
+                else:
+                    R[i, j] = v
+        if todo:
+            stream(seed, 'ref-order').shuffle(todo)
+            ref = s.fresh_ref_sl()
+            for i, j, k in todo:
+                v = self.memo.get(k)
+                if v is None:
+                    v = float(ref.bilform(trial[j], test[i]))
                     self.memo[k] = v
                 R[i, j] = v
         return R
 
     def ref_vector(self, s, elems, order_seed):
+        """linform(e)[0] for every element on its own: a fresh operator per
+        element, under another set-order stream."""
         key0 = (s.curve, 'M0', s.u0_kind, s.cfg['quad_int'])
         out = np.zeros(len(elems))
         for j, e in enumerate(elems):
@@ -204,7 +237,7 @@ class World:
             v = self.memo.get(k)
             if v is None:
                 simset.reseed(H(order_seed, 'ref', j))
-                v = float(s.refM0.linform(e)[0])
+                v = float(s.fresh_ref_m0().linform(e)[0])
                 self.memo[k] = v
             out[j] = v
         return out
@@ -407,7 +440,7 @@ class World:
         trial = s.select(op['trial'])
         t_list = test if test is not None else list(s.case.mesh.leaf_elements)
         r_list = trial if trial is not None else t_list
-        R = self.ref_matrix(s, t_list, r_list)
+        R = self.ref_matrix(s, t_list, r_list, op.get('sched_seed', 0))
         opkey = ('SL', s.curve, s.dir_idx, tuple(geom(e) for e in t_list),
                  tuple(geom(e) for e in r_list))
         N, M = R.shape
